@@ -63,7 +63,16 @@ def atom_value(a, u, s=None):
     if t == 'plog':
         return s * np.log(u / s)
     if t == 'entropy':
-        return float(-np.sum(u * np.log(u)))
+        uu = np.maximum(u, 1e-300)          # closure: 0*log(0) = 0
+        return float(-np.sum(uu * np.log(uu)))
+    if t == 'sumexp':
+        return float(np.sum(np.exp(u)))
+    if t == 'sumlog':
+        return float(np.sum(np.log(u)))
+    if t == 'maxof':
+        return float(np.max(u))
+    if t == 'minof':
+        return float(np.min(u))
     raise ValueError(t)
 
 
@@ -85,6 +94,10 @@ ATOMS = {
     'log': ('ccv', 'elem', 'pos', 'exp'),
     'plog': ('ccv', 'elem', 'pos', 'exp'),
     'entropy': ('ccv', 'scalar', 'pos', 'exp'),
+    'sumexp': ('cvx', 'scalar', 'any', 'exp'),      # exp(u).sum()
+    'sumlog': ('ccv', 'scalar', 'pos', 'exp'),      # log(u).sum()
+    'maxof': ('cvx', 'scalar', 'any', 'lp'),
+    'minof': ('ccv', 'scalar', 'any', 'lp'),
 }
 
 
@@ -161,7 +174,7 @@ def residuals(case, x):
             else:
                 out.append(('lin%d.%d' % (i, k), abs(val[k]), sc[k]))
     for i, a in enumerate(case['atoms']):
-        if not in_domain(a, x, -1e-9):
+        if not in_domain(a, x, -1e-6):      # solver tolerance at the boundary of the domain (entropy/log arguments at 0)
             out.append(('atom%d:%s:domain' % (i, a['atom']), 1.0, 1.0))
             continue
         with np.errstate(all='ignore'):
@@ -196,15 +209,16 @@ def cone_residual(i, c, x):
         y = np.array(c['y']) @ x + c['y0']
         xx = np.array(c['x']) @ x + c['x0']
         z = np.array(c['z']) @ x + c['z0']
-        if z <= 0:
-            return ('expcone%d' % i, 1.0, 1.0)
-        viol = float(z * np.exp(xx / z) - y)
+        if z <= 1e-7:
+            # closure of the exponential cone: z = 0 with x <= 0 and y >= 0 is a member
+            return ('expcone%d' % i, max(-z, xx if abs(z) <= 1e-7 else 1.0, -y), 1 + abs(y) + abs(xx))
+        viol = float(z * np.exp(min(xx / z, 700.0)) - y)
         return ('expcone%d' % i, viol, 1 + abs(y))
     if t == 'kldiv':
         p = np.array(c['M']) @ x + np.array(c['v'])
         q = np.array(c['q'], dtype=float)
-        if np.any(p < -1e-9):
-            return ('kldiv%d' % i, 1.0, 1.0)
+        if np.any(p < -1e-6):
+            return ('kldiv%d' % i, float(-np.min(p)), 1.0)
         pp = np.maximum(p, 1e-300)
         kl = float(np.sum(np.where(p > 0, pp * np.log(pp / q), 0.0)))
         return ('kldiv%d' % i, kl - c['r'], 1 + abs(c['r']))
@@ -245,6 +259,8 @@ def atom_use(draw, n, xbar, names, as_objective=False, allow_off=True, strict=Fa
     k = draw(st.integers(1, 3))
     if name in ('gmean',):
         k = draw(st.integers(2, 3))
+    if as_objective and res == 'elem' and name not in ('exp', 'log'):
+        k = 1          # objectives are scalar; only exp/log support .sum()
     M = [_row(draw, n) for _ in range(k)]
     a = {'atom': name, 'M': M}
     xb = np.array(xbar)
@@ -263,7 +279,7 @@ def atom_use(draw, n, xbar, names, as_objective=False, allow_off=True, strict=Fa
     if name == 'quad':
         L = np.array([[draw(st.sampled_from([-1.0, 0.0, 1.0, 2.0])) if j <= i else 0.0 for j in range(k)] for i in range(k)])
         Q = L @ L.T
-        a['nsd'] = draw(st.integers(0, 3)) == 0
+        a['nsd'] = draw(st.integers(0, 3)) == 0 and bool(np.any(Q))
         if a['nsd']:
             Q = -Q
         a['Q'] = Q.tolist()
@@ -516,6 +532,14 @@ def _atom_expr(a, x):
         f = u.softplus() if meth else rso.softplus(u)
     elif t == 'entropy':
         f = u.entropy() if meth else rso.entropy(u)
+    elif t == 'sumexp':
+        f = u.exp().sum() if meth else rso.exp(u).sum()
+    elif t == 'sumlog':
+        f = u.log().sum() if meth else rso.log(u).sum()
+    elif t == 'maxof':
+        f = rso.maxof(*[u[i] for i in range(len(a['M']))]) if meth else rso.maxof([u[i] for i in range(len(a['M']))])
+    elif t == 'minof':
+        f = rso.minof(*[u[i] for i in range(len(a['M']))])
     elif t in ('pexp', 'plog'):
         s = np.array(a['sM'], dtype=float)[0] @ x + float(a['sv'][0])
         if t == 'pexp':
